@@ -305,6 +305,35 @@ def rule_r4(ctx) -> List[R.Inst]:
             reset_cols.setdefault(n.targets[0].attr, set()).update(lists)
     reset_before_frame = bool(reset_idx) and resets_notes and reset_idx[0] < i_frame
     insts = []
+    # the reset is guarded by flags: bind the call's arguments (and the defaults of the omitted ones) and require both
+    # guarded parts — the notes' sound columns and the event samples — to run
+    if reset_idx:
+        call = body[reset_idx[0]].value
+        ps = [a for a in rfn.node.args.args if a.arg != "self"]
+        dflt = dict(zip([a.arg for a in ps][::-1], rfn.node.args.defaults[::-1]))
+        bound = {}
+        for i, a in enumerate(call.args):
+            if i < len(ps):
+                bound[ps[i].arg] = a
+        for k in call.keywords:
+            if k.arg:
+                bound[k.arg] = k.value
+        for a in ps:
+            bound.setdefault(a.arg, dflt.get(a.arg))
+        for st in rfn.node.body:
+            if isinstance(st, ast.If) and isinstance(st.test, ast.Name) and st.test.id in bound:
+                v = bound[st.test.id]
+                does = "the event samples" if any(isinstance(x, ast.Attribute) and x.attr == "samples" for x in ast.walk(st)) else "the notes' sound columns"
+                key = f"reset:{st.test.id}"
+                if isinstance(v, ast.Constant) and bool(v.value) is True:
+                    insts.append(R.ok(rid, key, file, call.lineno, idiom=f"{st.test.id} = {v.value!r} at the call: {does} are reset"))
+                elif isinstance(v, ast.Constant):
+                    insts.append(R.viol(rid, key, M.mods[rfn.mod].rel, st.lineno,
+                                        f"hitsound_copy calls reset_samples({unparse(call)[len('osu_tgt.reset_samples('):-1]}) and relies on it to clear "
+                                        f"{does}, but '{st.test.id}' is {v.value!r} there (its default): {does} of the target survive in the result — "
+                                        f"sounds the source never had", construct=f"reset_samples: {st.test.id}={v.value!r} at the call in hitsound_copy"))
+                else:
+                    insts.append(R.undec(rid, key, file, call.lineno, f"value of '{st.test.id}' at the call is not a constant"))
     for c in SOUND_COLS:
         key = f"kill:{c}"
         kills = []
@@ -433,7 +462,7 @@ SPECS = [
     RuleSpec("C18.R1", rule_r1, 3, "A3", "both inputs untouched; result rooted in a deep copy"),
     RuleSpec("C18.R2", rule_r2, 5, "A2", "result frame = target's notes; only sound columns stored; rows kept; unique labels; split back"),
     RuleSpec("C18.R3", rule_r3, 5, "A8", "every named sample reaches exactly one sink on every path, with no early exit"),
-    RuleSpec("C18.R4", rule_r4, 5, "A2", "sound columns of the result are cleared before slotting"),
+    RuleSpec("C18.R4", rule_r4, 7, "A2", "sound columns of the result are cleared before slotting"),
     RuleSpec("C18.R6", rule_r6, 1, "A1", "source and target times are matched as stored (no one-sided transform)"),
     RuleSpec("C18.R5", rule_r5, 3, "A2", "bit tests on sound columns act on integer data for every history of the chart"),
     RuleSpec("C18.D", rule_dep, 1, "M0", "rules of the shared code (timing engine, list classes, stacker) that the operations of this property reach"),
